@@ -57,6 +57,15 @@ def check(ctx: Ctx):
         A.check_module_attrs(ctx, m, "R-API")
         for f in repo.all_functions(m):
             A.check_sequence_apis(ctx, f, "R-API")
+    # the generate command imports every generator module at load time: one module that cannot be imported
+    # (e.g. a library entry point removed upstream) takes all generators down with it
+    gen = repo.module("pydcop.commands.generate")
+    ctx.touch(gen)
+    A.check_imports(ctx, gen, "R-API")
+    for mn, m in sorted(repo.modules.items()):
+        if mn.startswith("pydcop.commands.generators.") and mn not in (GC, IS, SC):
+            ctx.touch(m)
+            A.check_imports(ctx, m, "R-API")
     ctx.floor("R-API", 20)
 
     # ---- graph colouring ------------------------------------------------------
@@ -183,6 +192,7 @@ _G = "pydcop/commands/generators/graphcoloring.py"
 _I = "pydcop/commands/generators/ising.py"
 _S = "pydcop/commands/generators/scenario.py"
 VARIANTS = [
+    ("iot_old_pulp_import", "pydcop/commands/generators/iot.py", "from pulp import GLPK_CMD\n", "from pulp.solvers import GLPK_CMD\n", "break", "R-API"),
     ("sample_from_set", _S, "random.sample(sorted(agents), actions_count)", "random.sample(agents, actions_count)", "break", "R-API"),
     ("pool_not_updated", _S, "        agents.difference_update(removed_agents)\n", "", "break", "R-SCENARIO"),
     ("sample_wrong_count", _S, "random.sample(sorted(agents), actions_count)", "random.sample(sorted(agents), evts_count)", "break", "R-SCENARIO"),
